@@ -11,6 +11,7 @@
   Spec: `CorrectPage` (ibid.).  Lemmas: `Hv/Data/BeaconLemmas.lean`.
 -/
 import Hv.Data.BeaconLemmas
+import Hv.Data.BeaconSingle
 
 namespace Hv.C07
 open Hv.Beacon
@@ -199,6 +200,86 @@ theorem slot_correct (cfg : Cfg) (hb : BsGood cfg) (s : Slot) (hg : SlotGood cfg
         rw [hw] at h1 ⊢
         omega
       · simp only [hl0, if_false]
+  · simp [hempty] at ha
+
+/-- the read of an index whose ordered slice is what it should be (`ListOk`) is a correct page -/
+theorem correct_of_listOk (cfg : Cfg) (hb : BsGood cfg) (q : Query) (store : List Rec)
+    (hne : store.isEmpty = false) (hs : KeysNodup store) (l : List Rec) (hlok : ListOk q.slot q.asc store l) :
+    CorrectPage
+      (getMany cfg l (ts q.slot) q.asc q.from_ (if q.limit = 0 then store.length else q.limit)
+        (if q.slot.isTime then q.fromT else none) (if q.slot.isTime then q.toT else none)) q store := by
+  have hperm := hlok.perm hs
+  refine ⟨l, hperm, ?_, ?_⟩
+  · refine hlok.sorted.imp ?_
+    intro a b hab
+    have := (ordB_iff_sle q.slot q.asc a b).mp hab
+    unfold ord
+    cases hqa : q.asc <;> simpa [hqa] using this
+  · have hstore : store.length ≠ 0 := by
+      intro h0
+      have : store = [] := List.eq_nil_of_length_eq_zero h0
+      rw [this] at hne; simp at hne
+    have hlen : l.length ≤ store.length := by
+      rw [hperm.length_eq]; exact List.length_filter_le _ _
+    have hpc := page_correct cfg hb { q with limit := (if q.limit = 0 then store.length else q.limit) } l hlok.sorted
+    simp only [] at hpc
+    rw [hpc]
+    unfold page inRange
+    simp only []
+    by_cases hl0 : q.limit = 0
+    · simp only [hl0, if_true, hstore, if_false]
+      apply List.take_of_length_le
+      have h1 : (List.drop q.from_ (if q.slot.isTime = true then List.filter (inWindow { q with limit := store.length }) l else l)).length
+          ≤ l.length := by
+        rw [List.length_drop]
+        split
+        · have := List.length_filter_le (inWindow { q with limit := store.length }) l
+          omega
+        · omega
+      have hw : inWindow { q with limit := store.length } = inWindow q := rfl
+      rw [hw] at h1 ⊢
+      omega
+    · simp only [hl0, if_false]
+
+/-- **Partial theorem for value indexes (single-type swamps).**  With the one shared value pair that
+    every add and every content change drops (the current tree): in a swamp all of whose records
+    have content type `t` — every Set writes `t`, Increment only where `t` is int64 — and whose value
+    reads ask for `t` only, every read of the value index of `t`, after every such history, is a
+    correct page.  (Reads of the other index types, deletes, patches, shifts and reloads are free.) -/
+theorem value_single_type (cfg : Cfg) (hb : BsGood cfg) (hv : ValFacts cfg) (t : CT) (h : List Op)
+    (hok : ∀ op ∈ h, OpOk t op) (q : Query) (hq : q.slot = .value t) (res : List Rec)
+    (ha : answer cfg (run cfg h) q = some res) : CorrectPage res q (run cfg h).store := by
+  have hinv := singleInv_run hv h hok
+  generalize run cfg h = st at *
+  unfold answer at ha
+  cases hempty : st.store.isEmpty
+  · simp only [hempty, Bool.false_eq_true, if_false] at ha
+    have hq' : ∀ t', q.slot = .value t' → t' = t := by
+      intro t' h'; rw [hq] at h'; exact (Slot.value.inj h').symm
+    obtain ⟨hs, _, hp⟩ := singleInv_stepBuild hv st q hq' hinv
+    have hstore : (stepBuild cfg st q).store = st.store := by
+      simp only [stepBuild]; split <;> rfl
+    have hphys : phys cfg q.slot = .value .i64 := by rw [hq]; simp [phys, hv.shared]
+    have hinit : ((stepBuild cfg st q).pairs (.value .i64)).init = true := by
+      simp only [stepBuild, hempty, Bool.false_eq_true, if_false, setPair, hphys, if_true]
+      exact Pair.build_init cfg q.slot st.store _
+    obtain ⟨hasc, hdesc⟩ := hp hinit
+    rw [hstore] at hasc hdesc hs
+    rw [hphys] at ha
+    generalize hl : (if q.asc = true then ((stepBuild cfg st q).pairs (.value .i64)).asc
+        else ((stepBuild cfg st q).pairs (.value .i64)).desc) = l at ha
+    have hlok : ListOk q.slot q.asc st.store l := by
+      rw [hq]
+      cases hqa : q.asc
+      · simp only [hqa, Bool.false_eq_true, if_false] at hl; rw [← hl]; exact hdesc
+      · simp only [hqa, if_true] at hl; rw [← hl]; exact hasc
+    have hres : res = getMany cfg l (ts q.slot) q.asc q.from_ (if q.limit = 0 then st.store.length else q.limit)
+        (if q.slot.isTime then q.fromT else none) (if q.slot.isTime then q.toT else none) := by
+      cases ht : q.slot.isTime
+      · simp only [ht, Bool.false_eq_true, if_false, Option.some.injEq] at ha ⊢; exact ha.symm
+      · simp only [ht, if_true, Option.some.injEq] at ha ⊢; exact ha.symm
+    rw [hres]
+    exact correct_of_listOk cfg hb q st.store hempty hs l hlok
   · simp [hempty] at ha
 
 /-! ### 4. decidable soundness of the facts -/
@@ -661,6 +742,25 @@ theorem holds_current_nonvalue :
   refine holds_partial current (by decide) hist q res ?_ ha
   rcases hs with h | h | h | h <;> rw [h] <;> decide
 
+def valFactsB (cfg : Cfg) : Bool :=
+  cfg.valueShared && cfg.resortValue == .invalidate && !cfg.addGuardValueType && cfg.updRefreshValue
+
+theorem valFacts_of (cfg : Cfg) (h : valFactsB cfg = true) : ValFacts cfg := by
+  simp only [valFactsB, Bool.and_eq_true, beq_iff_eq, Bool.not_eq_true'] at h
+  exact ⟨h.1.1.1, h.1.1.2, h.1.2, h.2⟩
+
+/-- **What holds on the current tree for value indexes**: single-type swamps. -/
+theorem holds_current_single_type (t : CT) (h : List Op) (hok : ∀ op ∈ h, OpOk t op) (q : Query) (hq : q.slot = .value t)
+    (res : List Rec) (ha : answer current (run current h) q = some res) : CorrectPage res q (run current h).store :=
+  value_single_type current (bsGood_of current (by decide)) (valFacts_of current (by decide)) t h hok q hq res ha
+
+/-- non-vacuity: a float swamp with an update and an insert after the index was built is read sorted;
+    the same reads with one string record in the swamp are not (the recorded finding) -/
+example :
+    (answer current (run current [setOp "k1" .f64 1 0 0 0, setOp "k2" .f64 3 0 0 0, .read (fullRead (.value .f64) true),
+        setOp "k3" .f64 2 0 0 0, setOp "k1" .f64 4 0 0 0]) (fullRead (.value .f64) true)).map (·.map (·.key))
+      = some ["k3", "k2", "k1"] := by decide
+
 /-- non-vacuity of `bounds_correct`: a sorted slice with duplicates, window [3,7) -/
 example : findBounds current true [1, 3, 3, 5, 7, 9] (some 3) (some 7) = (1, 3) := by decide
 example : findBounds current false [9, 7, 5, 3, 3, 1] (some 3) (some 7) = (2, 4) := by decide
@@ -783,7 +883,11 @@ def classify (f : Facts) : Verdict :=
 
 /-- what is still proved when the property is violated: the index types with sound facts -/
 def Partial (cfg : Cfg) : Prop :=
-  bsGoodB cfg = true → HoldsFor cfg (fun s => slotGoodB cfg s = true)
+  bsGoodB cfg = true →
+    HoldsFor cfg (fun s => slotGoodB cfg s = true) ∧
+    -- value indexes: single-type swamps, when the shared pair is dropped by every add / content change
+    (valFactsB cfg = true → ∀ (t : CT) (h : List Op), (∀ op ∈ h, OpOk t op) → ∀ (q : Query), q.slot = .value t →
+      ∀ res, answer cfg (run cfg h) q = some res → CorrectPage res q (run cfg h).store)
 
 theorem classify_sound (f : Facts) : (classify f).Sound (Holds (cfgOf f)) (Partial (cfgOf f)) := by
   unfold classify
@@ -793,7 +897,8 @@ theorem classify_sound (f : Facts) : (classify f).Sound (Holds (cfgOf f)) (Parti
     · rename_i hg; exact holds_of_good _ hg
     · split
       · rename_i hf
-        refine ⟨refutes_of_findings _ ?_, fun hb => holds_partial _ hb⟩
+        refine ⟨refutes_of_findings _ ?_, fun hb => ⟨holds_partial _ hb, fun hv t h hok q hq res ha =>
+          value_single_type _ (bsGood_of _ hb) (valFacts_of _ hv) t h hok q hq res ha⟩⟩
         intro he; rw [he] at hf; simp at hf
       · trivial
 
